@@ -311,3 +311,48 @@ func c20RunConc(dir string, r *rand.Rand, mixed bool, idx int) c20CResult {
 	}
 	return res
 }
+
+// replay of a recorded concurrent history: the items are the schedule
+func c20ReplayConc(dir string, items []c20CItem) c20CResult {
+	w := newC20World(dir)
+	cwd, _ := os.Getwd()
+	os.Chdir(dir)
+	defer os.Chdir(cwd)
+	hold := filepath.Join(dir, "hold")
+	os.MkdirAll(hold, 0o777)
+	ctl := &c20Ctl{w: w, holdDir: hold, ev: make(chan c20Ev), seen: map[string]bool{}}
+	w.c = cache.New(ctl.hash)
+	res := c20CResult{hist: c20CHist{Stratum: "replay"}}
+	os.Unsetenv("VERIF_STUB_HOLD")
+	defer os.Unsetenv("VERIF_STUB_HOLD")
+	for step, it := range items {
+		switch it.K {
+		case "world":
+			b := w.apply(*it.Op)
+			res.hist.Items = append(res.hist.Items, c20CItem{K: "world", Op: it.Op, N: b.N})
+		case "spawn":
+			os.Setenv("VERIF_STUB_HOLD", hold)
+			ctl.active = true
+			i, o := ctl.spawn(it.P)
+			res.hist.Items = append(res.hist.Items, c20CItem{K: "spawn", I: i, P: it.P, Obs: o, N: w.c.ListTimes()})
+		case "release":
+			if it.I >= len(ctl.done) || ctl.done[it.I] {
+				continue
+			}
+			o := ctl.release(it.I)
+			res.hist.Items = append(res.hist.Items, c20CItem{K: "release", I: it.I, Obs: o, N: w.c.ListTimes()})
+			if o.K == "stuck" {
+				res.direct = append(res.direct, directViolation{Step: step, What: "concurrent Find did not reach a callback or return: " + o.Exp})
+			}
+		}
+	}
+	// let every goroutine that is still held run to its end
+	for i := range ctl.done {
+		for n := 0; !ctl.done[i] && n < 1000; n++ {
+			o := ctl.release(i)
+			res.hist.Items = append(res.hist.Items, c20CItem{K: "release", I: i, Obs: o, N: w.c.ListTimes()})
+		}
+	}
+	ctl.active = false
+	return res
+}
